@@ -22,6 +22,7 @@ Ghost state used in the statements (never read by the programs):
 of `BaseTime::new()` is valid).
 -/
 import Woodpile.Proofs.AtomicBaseTime
+import Woodpile.Proofs.AbtRA
 
 namespace Woodpile.Props.C13
 open Woodpile.Abt
@@ -105,6 +106,99 @@ theorem sc_stale_update_ignored {chk : Nat → Nat → Bool} {v0 : Nat} (h0 : ch
     (s'.thr t).feedUnit.pc = .retBool false :=
   SC.stale_ignored (sc_invariant h0 h) t ts hpc cur hcur hstale hs
 
+/-! ## Release/acquire view machine
+
+Same statements on `RA`: per-location message lists `(value, view)`, per-thread views, relaxed
+loads read any message at or after the thread's view of the location, acquire loads join the
+message's view, release stores attach the thread's view, lock / guard drop transfer views,
+`sync` models synchronisation outside the object.  `start t` is the reader's view of
+`sequence` when its snapshot began: an update "completed before the snapshot began" in the
+happens-before sense iff the sequence message it published is at or below that view. -/
+
+/-- The inductive invariant of DESIGN.md appendix A.3 holds in every reachable state:
+(S) `sequence` messages are `0..n` with value = timestamp; (P) the pair of sequence `k` sits
+at timestamp `⌈k/2⌉` of slot `k mod 2` and is the epoch pair or an accepted update's argument,
+all valid, base times non-decreasing; (V1) the `sequence = k` message's view covers both slot
+words of `k`; (V2) a slot message at timestamp `i ≥ 1` of slot `j` carries a view with
+`sequence ≥ 2i - j - 1`; (W) only the lock holder appends, its view covers every message, slot
+lengths exceed the published ones by the holder's progress; (R) per reader pc; plus
+well-formedness of all views and the per-thread snapshot logs. -/
+theorem ra_invariant {chk : Nat → Nat → Bool} {v0 : Nat} (h0 : chk 0 v0 = true) {s : RA.State}
+    (h : RA.Reachable chk v0 s) : RA.Inv chk s :=
+  RA.inv_reachable h0 h
+
+/-- What the ghost history is on `RA` (as `sc_hist_is_accepted_updates`). -/
+theorem ra_hist_is_accepted_updates (chk : Nat → Nat → Bool) (s s' : RA.State) (l : Label)
+    (h : RA.step chk s l = some s') :
+    s'.hist = s.hist ∨
+    ∃ t ts, l = .run t ts ∧ (s.thr t).loc.pc = .aStSeq ∧
+      s'.hist = s.hist ++ [((s.thr t).loc.ub, (s.thr t).loc.uv)] :=
+  RA.hist_step chk s s' l h
+
+/-- Never torn under release/acquire: a returned snapshot is an element of the history. -/
+theorem ra_snapshot_not_torn {chk : Nat → Nat → Bool} {v0 : Nat} (h0 : chk 0 v0 = true) {s : RA.State}
+    (h : RA.Reachable chk v0 s) (t : Nat) (hpc : (s.thr t).loc.pc = .retSnap) :
+    ((s.thr t).loc.base, (s.thr t).loc.bits) ∈ s.hist := by
+  obtain ⟨_, k, _, _, hk⟩ := ((ra_invariant h0 h).t t).lg.2.2 hpc
+  exact List.mem_of_getElem? hk
+
+theorem ra_snapshot_in_history {chk : Nat → Nat → Bool} {v0 : Nat} (h0 : chk 0 v0 = true) {s : RA.State}
+    (h : RA.Reachable chk v0 s) (t : Nat) (p : Nat × Nat) (hp : p ∈ s.log t) : p ∈ s.hist := by
+  obtain ⟨k, _, hk⟩ := ((ra_invariant h0 h).t t).lg.2.1 p hp
+  exact List.mem_of_getElem? hk
+
+/-- The assertion in `snapshot` never fails under release/acquire. -/
+theorem ra_no_panic {chk : Nat → Nat → Bool} {v0 : Nat} (h0 : chk 0 v0 = true) {s : RA.State}
+    (h : RA.Reachable chk v0 s) (t : Nat) : (s.thr t).loc.pc ≠ .sPanic := by
+  intro hpc
+  have := ((ra_invariant h0 h).t t).rd
+  simp [RA.RInv, hpc] at this
+
+theorem ra_history_valid {chk : Nat → Nat → Bool} {v0 : Nat} (h0 : chk 0 v0 = true) {s : RA.State}
+    (h : RA.Reachable chk v0 s) (p : Nat × Nat) (hp : p ∈ s.hist) : chk p.1 p.2 = true :=
+  (ra_invariant h0 h).g.chkAll p hp
+
+/-- `start t` really is the reader's view of `sequence` when the call began. -/
+theorem ra_start_records_view (chk : Nat → Nat → Bool) (s s' : RA.State) (t : Nat) (op : Op)
+    (h : RA.step chk s (.start t op) = some s') : s'.start t = (s.thr t).view .seq := by
+  simp only [RA.step] at h
+  split at h
+  · simp at h; subst h; simp
+  · simp at h
+
+/-- Recency under release/acquire: a returned snapshot is the pair of a sequence number `k` at
+or above the reader's view of `sequence` when the snapshot began, so its base time is at least
+that of every update whose publication happened-before the start of the snapshot. -/
+theorem ra_recent {chk : Nat → Nat → Bool} {v0 : Nat} (h0 : chk 0 v0 = true) {s : RA.State}
+    (h : RA.Reachable chk v0 s) (t : Nat) (hpc : (s.thr t).loc.pc = .retSnap) :
+    (∃ k, s.start t ≤ k ∧ s.hist[k]? = some ((s.thr t).loc.base, (s.thr t).loc.bits)) ∧
+    ∀ j p, j ≤ s.start t → s.hist[j]? = some p → p.1 ≤ (s.thr t).loc.base := by
+  have hI := ra_invariant h0 h
+  obtain ⟨_, k, hk1, _, hk⟩ := (hI.t t).lg.2.2 hpc
+  refine ⟨⟨k, hk1, hk⟩, ?_⟩
+  intro j p hj hp
+  exact sorted_get hI.g.sorted hp hk (by omega)
+
+theorem ra_per_thread_monotone {chk : Nat → Nat → Bool} {v0 : Nat} (h0 : chk 0 v0 = true) {s : RA.State}
+    (h : RA.Reachable chk v0 s) (t : Nat) :
+    (s.log t).Pairwise (fun newer older => older.1 ≤ newer.1) :=
+  ((ra_invariant h0 h).t t).lg.1
+
+theorem ra_published_monotone {chk : Nat → Nat → Bool} {v0 : Nat} (h0 : chk 0 v0 = true) {s : RA.State}
+    (h : RA.Reachable chk v0 s) : s.hist.Pairwise (fun a b => a.1 ≤ b.1) :=
+  (ra_invariant h0 h).g.sorted
+
+/-- A stale update is ignored under release/acquire, whichever message the (acquire) load of
+the current base word is allowed to read: the holder's view covers every message, so it reads
+the most recently published base time. -/
+theorem ra_stale_update_ignored {chk : Nat → Nat → Bool} {v0 : Nat} (h0 : chk 0 v0 = true) {s s' : RA.State}
+    (h : RA.Reachable chk v0 s) (t ts : Nat) (hpc : (s.thr t).loc.pc = .aB)
+    (cur : Nat × Nat) (hcur : s.hist.getLast? = some cur) (hstale : (s.thr t).loc.ub < cur.1)
+    (hs : RA.step chk s (.run t ts) = some s') :
+    (s'.thr t).loc.pc = .aUnlock false ∧ s'.mem = s.mem ∧ s'.hist = s.hist ∧
+    (s'.thr t).loc.feedUnit.pc = .retBool false :=
+  RA.stale_ignored (ra_invariant h0 h) t ts hpc cur hcur hstale hs
+
 end Woodpile.Props.C13
 
 namespace Woodpile.Props.C13
@@ -130,5 +224,25 @@ example :
        .start 2 (.tryUpdate 3 103), .run 2 0, .run 2 0, .run 2 0]).map
       (fun s => decide ((s.thr 2).pc = .aB ∧ s.hist.getLast? = some (5, 105) ∧ (s.thr 2).ub < 5)) = some true := by
   decide
+
+end Woodpile.Props.C13
+
+namespace Woodpile.Props.C13
+open Woodpile.Abt
+
+/-! Non-vacuity (RA): the reader (thread 1) reads sequence message 0; the writer (thread 0)
+then publishes `(5, 105)`; the reader reads both (unchanged) words of slot 0, reads the NEW
+sequence message at its re-check (its view allowed 0 or 1), retries on slot 1 and returns the
+new pair; a second reader (thread 2, view still 0) legitimately reads the stale sequence
+message 0 afterwards and returns the epoch pair - allowed, since nothing happened-before it. -/
+example :
+    (RA.run (fun b v => v == b + 100) (RA.init 100)
+      [.start 1 .snapshot, .run 1 0, .start 0 (.update 5 105), .run 0 0, .run 0 0, .run 0 0, .run 0 0,
+       .run 0 0, .run 0 0, .run 0 0, .run 0 0, .run 1 0, .run 1 0, .run 1 1, .run 1 1, .run 1 1, .run 1 1,
+       .start 2 .snapshot, .run 2 0, .run 2 0, .run 2 0, .run 2 0]).map
+      (fun s => decide ((s.thr 1).loc.pc = .retSnap ∧ (s.thr 1).loc.base = 5 ∧ (s.thr 1).loc.bits = 105 ∧
+        s.hist = [(0, 100), (5, 105)] ∧ s.log 1 = [(5, 105)] ∧ (s.thr 0).loc.pc = .retBool true ∧
+        (s.thr 2).loc.pc = .retSnap ∧ (s.thr 2).loc.base = 0 ∧ s.start 2 = 0 ∧
+        (s.mem .seq).length = 2)) = some true := by decide
 
 end Woodpile.Props.C13
